@@ -122,6 +122,9 @@ func judgeLit(c LitCase) *eng.Fail {
 		neg.Neg = !neg.Neg
 		neg = neg.RoundHE(34)
 		L := c.Lit
+		// outside the exponent range of 34-digit decimal arithmetic the negation overflows; that
+		// is the arithmetic's business (C04), not the literal's
+		negOK := want.IsZero() || (want.E+len(want.C.Text(10)) < 6000 && want.E > -6000)
 		for _, ctx := range []struct {
 			expr string
 			w    ref.Dec
@@ -135,6 +138,9 @@ func judgeLit(c LitCase) *eng.Fail {
 			{"[" + L + "," + L + "]", want, 1, 2},
 			{"[ " + L + " ]", want, 0, 1},
 		} {
+			if !negOK && strings.HasPrefix(ctx.expr, "[-") {
+				continue
+			}
 			if f := check(ctx.expr, ctx.w, ctx.idx, ctx.n); f != nil {
 				return f
 			}
